@@ -280,7 +280,7 @@ def _run(ctx, case, mdl, reqs, s, classes):
 
 def run(ctx):
     ctx.set_budget(75, 780)
-    ctx.explore(cases(), lambda c: run_case(ctx, c), ctx.scale(500, 4500), shrink=False)
+    ctx.explore(cases(), lambda c: run_case(ctx, c), ctx.scale(500, 3000), shrink=False)
     for k in ("model:cap", "model:username", "model:service"):
         if ctx.classes.get(k, 0) == 0 and not ctx.budget_hit and not ctx.unknown:
             raise core.HarnessError("generator never reached %s" % k)
